@@ -74,6 +74,7 @@ Fixpoint spec_ops (ops : list fop) (obs : list Z) : bool :=
       | [] => false end
   | FSyncPut _ _ _ :: rest => spec_ops rest obs
   | FSyncDel _ :: rest => spec_ops rest obs
+  | FToggle _ :: rest => spec_ops rest obs
   | _ :: rest => match obs with _ :: o => spec_ops rest o | [] => false end
   end.
 Definition spec_C17 (c : c17case) (obs : list Z) : bool := spec_ops (c17_ops c) obs.
